@@ -6,7 +6,9 @@ From SM Require Import C17.Model C17.Proofs C17.Names.
 (* After ANY history of edits to the model file, the included C file or either kernel template - each
    edit advancing the modification time OF THE FILE IT TOUCHES, nothing being assumed about the times of
    different files relative to each other - loads at any precision and process restarts, the next load
-   (same process or new) evaluates a library compiled from the CURRENT texts.  Hypothesis: the tag
+   (same process or new) returns the CURRENT definition paired with a library compiled from the CURRENT texts
+   (first component: the definition text - parameter table, defaults, limits - which an edit can change without
+   changing the generated source; gen is not assumed injective).  Hypothesis: the tag
    identifies the source (checked on every explored history; CRC32 is not injective in general). *)
 Theorem C17_load_current :
   forall (Src : Type) (gen : nat -> nat -> nat -> nat -> Src) (tag : Src -> nat),
@@ -15,7 +17,7 @@ Theorem C17_load_current :
   advancing Src gen tag true (init Src m c h k) ops = true ->
   let s := fst (run Src gen tag true (init Src m c h k) ops) in
   forall s' out, step Src gen tag true s (Load bits) = (s', Some out) ->
-  out = gen (txt (fm Src s)) (txt (fc Src s)) (txt (fh Src s)) (txt (fk Src s)).
+  out = (txt (fm Src s), gen (txt (fm Src s)) (txt (fc Src s)) (txt (fh Src s)) (txt (fk Src s))).
 Proof. exact load_current. Qed.
 Print Assumptions C17_load_current.
 
@@ -40,14 +42,25 @@ Print Assumptions C17_load_total.
 Theorem C17_newest_stamp_refuted :
   advancing SrcW genW tagW false witness_init witness_ops = true /\
   let s := fst (run SrcW genW tagW false witness_init witness_ops) in
-  snd (step SrcW genW tagW false s (Load 64)) = Some (3, 5, 0, 0) /\ txt (fm SrcW s) = 4.
+  snd (step SrcW genW tagW false s (Load 64)) = Some (3, (3, 5, 0, 0)) /\ txt (fm SrcW s) = 4.
 Proof. exact newest_stamp_stale. Qed.
 Print Assumptions C17_newest_stamp_refuted.
 Theorem C17_per_file_stamp_example :
   let s := fst (run SrcW genW tagW true witness_init witness_ops) in
-  snd (step SrcW genW tagW true s (Load 64)) = Some (4, 5, 0, 0).
+  snd (step SrcW genW tagW true s (Load 64)) = Some (4, (4, 5, 0, 0)).
 Proof. exact per_file_stamp_current. Qed.
 Print Assumptions C17_per_file_stamp_example.
+
+(* an edit that changes only a default (two definition texts, one generated source): one library, current definition *)
+Theorem C17_definition_only_edit_example :
+  let s0 := init SrcW (MkFile 6 1) (MkFile 5 1) (MkFile 0 0) (MkFile 0 0) in
+  let ops := [Load 64; EditM 46 2] in
+  advancing SrcW genD tagW true s0 ops = true /\
+  let s := fst (run SrcW genD tagW true s0 ops) in
+  snd (step SrcW genD tagW true s (Load 64)) = Some (46, (6, 5, 0, 0)) /\
+  List.length (dlls SrcW (fst (step SrcW genD tagW true s (Load 64)))) = 1.
+Proof. exact definition_only_edit. Qed.
+Print Assumptions C17_definition_only_edit_example.
 
 (* the cache key is recoverable from the file name of the library: libraries of two different
    (model id, source tag) pairs, or of two precisions, never share a name ("two different generated
